@@ -1,6 +1,8 @@
 #!/bin/bash
 # re-runs every stored seed against the check(s) recorded as detecting it (first detecting check of its own property, else first listed)
 cd /verif
+# detection only: the replay need not be minimal here
+export JAMM_SHRINK_RUNS=8
 for d in seeded/*/; do
   id=$(basename $d)
   prop=$(python3 -c "import json; m=json.load(open('$d/meta.json')); d=[x['check'].split()[1] for x in m.get('detected_by',[])]; p=m['property']; print(p if (p in d or not d) else d[0])")
